@@ -328,6 +328,31 @@ let c09_unpack t =
   | UAbort -> "abort" | UMisuse -> "misuse"
 let c09_utf8 t = sb (utf8_valid (bytes_of_hex (tok t)))
 
+(* ---------- C10 ---------- *)
+(* ingest <maxq> <nops> { H | R | X n | O F a v s e last | O E a lo hi }  (a = 0: own actor) *)
+let c10_ingest t =
+  let maxq = tz t in
+  let nops = ti t in
+  let ops = tlist t nops (fun t -> match tok t with
+    | "H" -> SHold | "R" -> SRelease | "X" -> SFail (nat_of_int (ti t))
+    | "O" -> (match tok t with
+        | "F" -> let a = tz t in let v = tz t in let s = tz t in let e = tz t in let last = tz t in
+          SOffer { g_actor = a; g_lo = v; g_hi = v; g_seqs = Some (s, e); g_last = last }
+        | "E" -> let a = tz t in let lo = tz t in let hi = tz t in
+          SOffer { g_actor = a; g_lo = lo; g_hi = hi; g_seqs = None; g_last = Z0 }
+        | x -> failwith ("bad offer " ^ x))
+    | x -> failwith ("bad op " ^ x)) in
+  let st = ref sst_init in
+  let offered = ref [] in
+  let invok = ref true in
+  let outs = List.map (fun op ->
+      (match op with SOffer c -> if not (List.mem c !offered) then offered := !offered @ [c] | _ -> ());
+      st := sstep Z0 maxq !st op;
+      invok := !invok && seen_inv_b !st.core;
+      if !st.held then "b-"
+      else "b" ^ String.concat "" (List.map (fun c -> sb (known !st.core.bk c)) !offered)) ops in
+  String.concat " " outs ^ (if !invok then "" else " INV-BROKEN")
+
 (* ---------- dispatch ---------- *)
 let handlers : (string * (toks -> string)) list ref = ref [
   "chunks", c08_chunks;
@@ -340,6 +365,7 @@ let handlers : (string * (toks -> string)) list ref = ref [
   "chk_needs", c04_chk;
   "members", c18_members;
   "chk_members", c18_chk;
+  "ingest", c10_ingest;
   "wire", c09_wire;
   "decode", c09_decode;
   "pack", c09_pack;
